@@ -75,6 +75,33 @@ theorem execute_leaves_result_slot_pinned (vm0 vm1 vm2 : Vm) (retAddr : Nat)
   obtain ⟨vm3, hr, hsp3, _⟩ := mark_ret_roundtrip vm0 vm1 vm2 retAddr hs0 h0 h1 hm hs2 hsz hfp hframe hsp0 hsp
   exact ⟨vm3, hr, by omega, hsp3⟩
 
+/-- **a call that fails uses no VM stack either**: on a machine that was already initialised, whatever the failing call left
+behind, `nev_execute` returns with `sp_after = sp_before` and the frame registers as the run left them (since the `fix:` commit
+dd988fe) -/
+theorem failed_execute_restores_sp (sp0 : Int) (vm : Vm) (hfail : vm.running ≠ 0) :
+    (failEpilogue true sp0 vm).sp = sp0 ∧ (failEpilogue true sp0 vm).fp = vm.fp ∧ (failEpilogue true sp0 vm).pp = vm.pp ∧
+    (failEpilogue true sp0 vm).gc = vm.gc ∧ (failEpilogue true sp0 vm).running = vm.running := by
+  have : (vm.running != 0) = true := by simpa using hfail
+  simp [failEpilogue, this]
+
+/-- a successful call is not touched by that epilogue -/
+theorem fail_epilogue_only_on_failure (w : Bool) (sp0 : Int) (vm : Vm) (h : vm.running = 0) : failEpilogue w sp0 vm = vm := by
+  simp [failEpilogue, h]
+
+/-- the defect that was repaired: an exception that leaves the callee through RETHROW returns into the entry stub exactly like
+RET — one slot above `sp_before` — and the stub's handler (UNHANDLED_EXCEPTION) stops the machine there: every failed call
+left `sp_after = sp_before + 1` (found by an independent reviewer's driver; checks/c15.py now demands `sp_after = sp_before`
+of every call after the first, failed or not) -/
+theorem failed_execute_leaked_slot_pinned (vm0 vm1 vm2 : Vm) (retAddr : Nat)
+    (hs0 : StackOk vm0) (h0 : -1 ≤ vm0.sp) (h1 : vm0.sp + 5 < vm0.stackSize)
+    (hm : markP vm0 retAddr = .ok vm1)
+    (hs2 : StackOk vm2) (hsz : vm2.stackSize = vm0.stackSize) (hfp : vm2.fp = vm0.sp + 5)
+    (hframe : ∀ k : Int, 1 ≤ k → k ≤ 5 → slot vm2 (vm0.sp + k) = slot vm1 (vm0.sp + k))
+    (hsp0 : 0 ≤ vm2.sp) (hsp : vm2.sp < vm2.stackSize) :
+    ∃ vm3, retP vm2 = .ok vm3 ∧ (failEpilogue false vm0.sp { vm3 with running := 3 }).sp = vm0.sp + 1 := by
+  obtain ⟨vm3, hr, hsp3, _⟩ := mark_ret_roundtrip vm0 vm1 vm2 retAddr hs0 h0 h1 hm hs2 hsz hfp hframe hsp0 hsp
+  exact ⟨vm3, hr, by simp [failEpilogue, hsp3]⟩
+
 /-- first `nev_execute` starts at 0 (global initialisation), every later one at the entry stub -/
 theorem first_execute_initialises_once (md : Module) (vm : Vm) :
     (vm.initialized = false → (beginExecute md vm).ip = 0 ∧ (beginExecute md vm).initialized = true) ∧
